@@ -174,6 +174,9 @@ type Sim struct {
 	ABAs []ABAEvent
 
 	leaked   int
+	timers   timerHeap
+	timerSeq uint64
+	globalTags map[string]string
 	rootMode bool // root goroutine is running oracle code: shims must not park
 	Epoch    uint64
 }
@@ -444,8 +447,24 @@ func (g *G) panicTagsFor(r interface{}) map[string]string {
 	return t
 }
 
+// GlobalTags are attached to every panic recorded from now on (e.g. "a session was lost").
+func SetGlobalTag(k, v string) {
+	if S == nil {
+		return
+	}
+	if S.globalTags == nil {
+		S.globalTags = map[string]string{}
+	}
+	S.globalTags[k] = v
+}
+
 func (g *G) panicTags() map[string]string {
 	t := map[string]string{"proc": g.proc.Name}
+	if S != nil {
+		for k, v := range S.globalTags {
+			t[k] = v
+		}
+	}
 	for k, v := range g.tags {
 		t[k] = v
 	}
@@ -490,41 +509,6 @@ func (s *Sim) run(g *G, f func()) {
 		s.mu.Unlock()
 	}()
 	s.park(g, KStart, "start")
-	f()
-}
-
-// AfterFunc mirrors time.AfterFunc: f runs as a new simulated goroutine.
-func AfterFunc(d time.Duration, f func()) *time.Timer {
-	s := S
-	if s == nil {
-		return time.AfterFunc(d, f)
-	}
-	parent := Yield(KGo, "afterfunc")
-	s.mu.Lock()
-	g := s.newG("afterfunc:"+callerName(2), parent.proc)
-	g.what = "timer"
-	s.mu.Unlock()
-	return time.AfterFunc(d, func() {
-		if s.tornDown {
-			return
-		}
-		s.run2(g, f)
-	})
-}
-
-func (s *Sim) run2(g *G, f func()) {
-	debug.SetPanicOnFault(true)
-	defer func() {
-		if r := recover(); r != nil {
-			if !s.tornDown {
-				s.fail("panic", fmt.Sprintf("%v", r), string(debug.Stack()), g.panicTagsFor(r))
-			}
-		}
-		s.mu.Lock()
-		g.state = gDone
-		s.mu.Unlock()
-	}()
-	s.park(g, KStart, "timer-start")
 	f()
 }
 
@@ -633,24 +617,6 @@ func siteName(id int) string {
 	return fmt.Sprintf("site%d", id)
 }
 
-// Sleep is time.Sleep on the virtual clock.
-func Sleep(d time.Duration) {
-	if S == nil {
-		time.Sleep(d)
-		return
-	}
-	g := Yield(KSleep, "sleep")
-	t := time.NewTimer(d)
-	g.what = "sleep"
-	select {
-	case <-t.C:
-	case <-S.teardown:
-		runtime.Goexit()
-	}
-	g.what = ""
-	g.AfterBlock()
-}
-
 // Gosched is runtime.Gosched: a pure decision point.
 func Gosched() {
 	if S == nil {
@@ -740,6 +706,10 @@ func (s *Sim) Run(p *Proc, main func()) *Result {
 loop:
 	for {
 		synctest.Wait()
+		if s.fireDue() > 0 {
+			// fired timers woke goroutines: let them re-park
+			synctest.Wait()
+		}
 		if s.AfterStep != nil && !s.failed {
 			s.rootMode = true
 			s.AfterStep()
@@ -772,7 +742,11 @@ loop:
 			// nothing runnable now: let virtual time advance to the next timer / stall end
 			var stallCh <-chan time.Time
 			var st *time.Timer
-			if d, ok := s.nextStallEnd(now); ok {
+			d, ok := s.nextStallEnd(now)
+			if td, tok := s.nextTimer(); tok && (!ok || td < d) {
+				d, ok = td, true
+			}
+			if ok {
 				st = time.NewTimer(d)
 				stallCh = st.C
 			}
